@@ -133,6 +133,13 @@ def serializer_obligations(ctx, facts, rule=None, scope="all"):
                 src = src[2]
             elif src[0] == "call" and ("into_iter" in src[1] or src[1] == "std::iter::Iterator::enumerate"):
                 src = src[2][0]
+            elif src[0] == "call" and src[1] in ("core::slice::<impl [T]>::iter", "std::slice::<impl [T]>::iter") and len(src[2]) == 1:
+                src = strip_conv(src[2][0])      # `for x in v.iter()`: by reference, same order
+                for _ in range(3):
+                    if src[0] == "call" and src[1].endswith("::deref") and len(src[2]) == 1:
+                        src = strip_conv(src[2][0])
+                    elif src[0] in ("ref", "deref"):
+                        src = src[2] if src[0] == "ref" else src[1]
             else:
                 break
         okl = src[0] == "var" and src[1] == vecvar[1]
@@ -229,6 +236,17 @@ def serializer_obligations(ctx, facts, rule=None, scope="all"):
             return ("lit", models.cchar(e["raw"][1]))
         if p.endswith("::push_str"):
             v = strip_conv(a[1])
+            for _ in range(3):   # &*String, &String
+                if v[0] == "call" and v[1].endswith("::deref") and len(v[2]) == 1:
+                    v = strip_conv(v[2][0])
+            if v[0] == "call" and v[1] in ("core::str::<impl str>::to_ascii_lowercase", "alloc::str::<impl str>::to_ascii_lowercase", "std::str::<impl str>::to_ascii_lowercase") and len(v[2]) == 1:
+                # the whole digest ASCII-lower-cased at once: the same text as lower-casing it char by char
+                inner = strip_conv(v[2][0])
+                for _ in range(3):
+                    if inner[0] == "call" and inner[1].endswith("::deref") and len(inner[2]) == 1:
+                        inner = strip_conv(inner[2][0])
+                if inner == ("field", PAIR, "1") or nshow(inner).endswith(").1") or ".1 as " in nshow(inner) or nshow(inner).endswith(".1"):
+                    return ("hex-lower",)
             if v == ("field", PAIR, "0"):
                 return ("alg",)
             if v == ("field", PAIR, "1"):
